@@ -80,6 +80,8 @@ fn after_accept_clean(root: &str, before: usize) -> Result<(), String> {
 fn body(p: &P) -> Result<(), String> {
     let root = tmp_root();
     interpose::harness(|| {
+        // (process ids are recycled: make sure nothing of an earlier, aborted execution is left)
+        let _ = std::fs::remove_dir_all(&root);
         let _ = std::fs::create_dir_all(&root);
     });
     std::env::set_var("TMPDIR", &root);
@@ -191,6 +193,8 @@ pub fn client_main(name: &str, n: usize, big_every: usize) -> i32 {
 fn e2_body(c: &Case) -> Result<(), String> {
     let root = tmp_root();
     interpose::harness(|| {
+        // (process ids are recycled: make sure nothing of an earlier, aborted execution is left)
+        let _ = std::fs::remove_dir_all(&root);
         let _ = std::fs::create_dir_all(&root);
     });
     std::env::set_var("TMPDIR", &root);
